@@ -115,6 +115,11 @@ let () =
           | ["UNSPLIT"; r] -> Unsplit (qc_of_string r)
           | _ -> failwith ("bad ftx: " ^ line)) in
         ftx := { ft_date = { dy = z_of_string y; dm = z_of_string m; dd = z_of_string d }; ft_tick = coq_of_string tick; ft_op = o } :: !ftx
+    | ["RUN"; "validate"] ->
+        let ops = List.map (fun (t : qc txn) -> t.t_op) (List.rev !txs) in
+        let ls = error_lines (S O) ops in
+        Printf.printf "{\"id\":%s,\"is_valid\":%b,\"error_lines\":[%s]}\n" (js !id) (not (has_errors ops))
+          (String.concat "," (List.map (fun n -> string_of_int (int_of_nat n)) ls))
     | ["RUN"; "fx_convert"] ->
         (match ledger_to_gbp !fxc (List.rev !ftx) with
          | Inl (MissingFx (c, y, m)) -> Printf.printf "{\"id\":%s,\"ok\":false,\"cur\":%s,\"year\":%s,\"month\":%s}\n" (js !id) (js (string_of_text c)) (string_of_z y) (string_of_z m)
